@@ -51,4 +51,12 @@ CLAIMED["C14"] = {
           "normaliser and confinement predicate are evaluated on the implementation's own answers.",
   "design_ref": "6/C14", "note": COMMON_NOTE + " Known findings F46 (`.` in the current path), F47 (<std> falls through to a real directory), F50 (#include inside #if ignored).",
   "technique": "Coq proof (fuel induction with seen-stack measure, cycle closure argument, lia/nia for usize arithmetic) + differential correspondence impl/model/spec incl. process-level runs"}
+CLAIMED["C18"] = {
+  "text": "Theorems for all format strings, group lists and define strings about the model of driver.rs after getopts, instantiated with tables regenerated each run from usage_help.md, "
+          "driver.rs, asm/mod.rs and excerpt.rs: every documented name/parameter/value is accepted with documented defaults (finite table obligations by vm_compute + forallb_forall), every "
+          "accepted string has a known name and only known two-part parameters with values in the documented sets, one action per group, derived name differs from the input and carries the "
+          "format's extension, globals honoured from any group, define parsing. Tied to the code by G-cli on every run through parse_output_format, drive on the mock server (debug+release) "
+          "and the real binary; the documented-set, one-action-per-group, derived-name and rejected-before-assembling predicates are evaluated on the implementation's own behaviour.",
+  "design_ref": "6/C18", "note": COMMON_NOTE + " getopts spellings, the assembler itself and PathBuf::set_extension are oracles/trusted.",
+  "technique": "Coq induction over parameter maps and group lists + vm_compute table obligations over translated tables + differential correspondence + real-binary process checks"}
 NOT_CLAIMED = {}
